@@ -245,7 +245,7 @@ impl ValueVisitor {
 //@@ spec
     ensures
         r is Ok ==> r->Ok_0 == node_of(data.field@, data.src@),       // [C03.value.node-of-announced-type] [C05.value.node-of-announced-type] the node built for a constructor is the variant the specification's table assigns to it, holding the decoded content unchanged
-        r is Ok ==> (*final(data.log))@ == (*old(data.log))@.push(Op::Variant).push(Op::Newtype(kind_of(data.field@))),       // [C03.value.content-decoded-once-as-own-type] [C05.value.content-decoded-once-as-own-type] [C04.value.content-decoded-once-as-own-type] the content is decoded exactly once, as the payload type of THAT variant (a uint as u32, a ushort as u16, a list as a sequence of values ...): its octets are consumed once and what follows starts where the value ends
+        r is Ok ==> (*final(data.log))@ == (*old(data.log))@.push(Op::Variant).push(Op::Newtype(kind_of(data.field@))),       // [C03.value.content-decoded-once-as-own-type] [C05.value.content-decoded-once-as-own-type] [C04.value.content-decoded-once-as-own-type] [C01.value.content-decoded-once-as-own-type] the content is decoded exactly once, as the payload type of THAT variant (a uint as u32, a ushort as u16, a list as a sequence of values ...): its octets are consumed once and what follows starts where the value ends
 //@@ end
 ''' % dict(F=F, VV=VV))
 LEAF = [('visit_bool', 'Bool(v)'), ('visit_i8', 'Byte(v)'), ('visit_i16', 'Short(v)'), ('visit_i32', 'Int(v)'), ('visit_i64', 'Long(v)'), ('visit_u8', 'Ubyte(v)'), ('visit_u16', 'Ushort(v)'),
